@@ -43,7 +43,7 @@ def all_jobs(harness, grammars, maxlen_by_nterm, extra=None, split_from=3):
     return jobs
 
 
-NEAR_BASES = {"G1": 4, "G2": 2, "G3": 3, "G4": 2, "G5": 3, "G6": 2, "G7": 3, "G8": 2, "G9": 3, "G10": 4, "G11": 2, "G12": 4, "G13": 4, "G14": 3, "G15": 4, "G16": 2, "G17": 2, "G18": 2, "G19": 4, "G20": 3, "G21": 4, "G22": 4, "G23": 3, "G24": 4, "G25": 4, "G26": 1, "G27": 2}
+NEAR_BASES = {"G1": 4, "G2": 2, "G3": 3, "G4": 2, "G5": 3, "G6": 2, "G7": 3, "G8": 2, "G9": 3, "G10": 4, "G11": 2, "G12": 4, "G13": 4, "G14": 3, "G15": 4, "G16": 2, "G17": 2, "G18": 2, "G19": 4, "G20": 3, "G21": 4, "G22": 4, "G23": 3, "G24": 4, "G25": 4, "G26": 1, "G27": 2, "G28": 2, "G29": 4, "G30": 4}
 
 
 def near_jobs(harness, grammars, edits, extra=None):
@@ -65,8 +65,16 @@ def sg_jobs(prop, b):
     jobs = []
     for nr in range(1, sg["maxr"] + 1):
         for l0 in range(0, sg["maxl"] + 1):
-            jobs.append({"harness": "hSG.c", "params": {"prop": prop, "maxr": sg["maxr"], "maxl": sg["maxl"], "maxlen": sg["maxlen"], "nrules": nr, "len0": l0},
-                         "weight": (4 ** sg["maxl"] * (5 if prop != 1 else 1)) ** nr, "validate_skip": False})
+            base = {"prop": prop, "maxr": sg["maxr"], "maxl": sg["maxl"], "maxlen": sg["maxlen"], "nrules": nr, "len0": l0}
+            w = (4 ** sg["maxl"] * (5 if prop != 1 else 1)) ** nr
+            if nr >= 3:
+                # the largest slices are split by the shape of the second rule
+                for lhs1 in range(2):
+                    for l1 in range(0, sg["maxl"] + 1):
+                        p = dict(base); p.update({"lhs1": lhs1, "len1": l1})
+                        jobs.append({"harness": "hSG.c", "params": p, "weight": w // 6})
+            else:
+                jobs.append({"harness": "hSG.c", "params": base, "weight": w})
     return jobs
 
 
@@ -194,8 +202,9 @@ def plan_C19(tier, seed):
         for e0 in range(b["hash_elements"]):
             for o0 in range(4):
                 jobs.append({"harness": src, "defs": D, "lib": lib, "params": {"mode": 0, "steps": b["hash_steps"], "elements": b["hash_elements"], "hmax": b["hmax"], "size": 0, "el0": e0, "op0": o0}, "weight": 3000 if o0 == 0 else 1000})
-        for op0 in range(7):
+        for op0 in range(8):
             jobs.append({"harness": src, "defs": D, "lib": lib, "params": {"mode": 1, "steps": b["os_steps"], "op0": op0}, "weight": 800})
+        for op0 in range(7):
             jobs.append({"harness": src, "defs": D, "lib": lib, "params": {"mode": 2, "steps": b["vlo_steps"], "op0": op0}, "weight": 800})
     # inductive step of the C hash table: one operation from every state that satisfies the representation invariant
     for (size, nel) in b["step_tables"]:
@@ -222,6 +231,11 @@ def plan_C16(tier, seed):
         j.update(X); jobs.append(j)
     for j in near_jobs("hC16.c", b["near_grammars"], 1, {"how": 0}):
         j.update(X); jobs.append(j)
+    for j in all_jobs("hC16.c", b["text_grammars"][:1], {"default": 1}, {"how": 0, "default_alloc": 2}):
+        j.update(X); jobs.append(j)
+    for n in b.get("long_rules", [100]):
+        for j in all_jobs("hC16.c", b["long_grammars"], {"default": 2}, {"how": 0, "long_first": n}):
+            j.update(X); jobs.append(j)
     w = {"harness": "hC16.c", "params": {"grammar": GIDX["G3"], "len": 3, "first": -1, "how": 0, "witness": 1}}
     w.update(X)
     return {"jobs": jobs, "witness": [w], "bounds": b, "cxx": True,
@@ -268,7 +282,7 @@ PROPS = {
     "C10": {"plan": plan_C10, "home_faults": False},
     "C12": {"plan": plan_C12, "home_faults": True, "label_prefix": "C12:"},
     "C13": {"plan": plan_C13, "home_faults": True},
-    "C16": {"plan": plan_C16, "home_faults": False},
+    "C16": {"plan": plan_C16, "home_faults": True},
     "C19": {"plan": plan_C19, "home_faults": True},
     "C17": {"plan": plan_C17, "home_faults": True},
     "C14": {"plan": plan_C14, "home_faults": True},
